@@ -29,6 +29,7 @@ type c02Case struct {
 	Digits   int          `json:"digits"`
 	Algo     int          `json:"algo"`
 	NilParam bool         `json:"nil_param"`
+	Skew     uint64       `json:"skew,omitempty"` // generation does not use the window: the code must not depend on it
 }
 
 // zones 5..7 observe daylight saving time (tz database embedded through time/tzdata): in the hour
@@ -87,7 +88,7 @@ func checkC02(c c02Case) verdict {
 	if c.NilParam {
 		digits, algo, period = 6, 0, 30
 	} else {
-		param = &otp.Param{Digits: otp.Digits(c.Digits), Algorithm: otp.Algorithm(c.Algo), Period: uint(c.Period)}
+		param = &otp.Param{Digits: otp.Digits(c.Digits), Algorithm: otp.Algorithm(c.Algo), Period: uint(c.Period), Skew: uint(c.Skew)}
 	}
 	eff := period
 	if eff == 0 {
@@ -226,6 +227,9 @@ func genC02(t *rapid.T) c02Case {
 	}
 	c.Zone = rapid.IntRange(0, len(zones)-1).Draw(t, "zone")
 	c.Mono = rapid.Bool().Draw(t, "mono")
+	if !c.NilParam && rapid.IntRange(0, 2).Draw(t, "skewQ") == 0 {
+		c.Skew = uint64(rapid.IntRange(1, 10).Draw(t, "skew")) // an admissible window: generation must not look at it
+	}
 	if c.Zone >= 5 && rapid.Bool().Draw(t, "nearTransition") {
 		// an instant within about an hour of the zone's next clock change (covers the repeated and the skipped hour)
 		base := time.Unix(int64(rapid.Uint64Range(1_000_000_000, 4_000_000_000).Draw(t, "dstBase")), 0).In(zones[c.Zone])
